@@ -281,7 +281,7 @@ func runC01(c *core.Ctx) {
 
 	checkMoves(c, models)
 	checkSlash(c)
-	checkCarry(c)
+	checkCarry(c, "C01.carry")
 }
 
 // checkMoves: freezing funds is paired with removing them from their source.
@@ -382,6 +382,35 @@ func checkSlash(c *core.Ctx) {
 			okCustom = core.SameValue(subRes.Arg(1), slashRet.Arg(0))
 		}
 		c.Check(okCustom, "C01.slash", short+"/custom", fn.Pos(), "custom-coin slash burns volume, removes the sale return from the reserve and adds that same return to total slashed", "a custom-coin slash does not pair SubCoinVolume + SubCoinReserve(ret) + AddTotalSlashed(ret)")
+		// complement: the slashed part is computed as original − kept (one rounding), never as an
+		// independently rounded share — two roundings lose a unit per item
+		if slashBase != nil {
+			sl := core.Unwrap(slashBase.Arg(0))
+			compl := false
+			for _, s2 := range core.SitesDeep(fn) {
+				if s2.Callee != "(*math/big.Int).Sub" || len(s2.Common.Args) != 3 || core.Unwrap(s2.Common.Args[0]) != sl {
+					continue
+				}
+				// the subtrahend is the kept value: it has a Mul and a Div applied in place
+				kept := core.Unwrap(s2.Common.Args[2])
+				mul, div := false, false
+				for _, s3 := range core.SitesDeep(fn) {
+					if len(s3.Common.Args) > 0 && core.Unwrap(s3.Common.Args[0]) == kept {
+						switch s3.Callee {
+						case "(*math/big.Int).Mul":
+							mul = true
+						case "(*math/big.Int).Div":
+							div = true
+						}
+					}
+				}
+				// the minuend is (a copy of) the original amount
+				if mul && div && (core.Unwrap(s2.Common.Args[1]) == sl) {
+					compl = true
+				}
+			}
+			c.Check(compl, "C01.slash", short+"/complement", slashBase.Pos(), "slashed = original − kept (the kept part is the only rounded quantity)", "the slashed amount is not computed as the original minus the kept part: independently rounded shares do not add up to the original, so units vanish (or appear) on every slash")
+		}
 		// branch discipline: base slash under IsBaseCoin, custom under !IsBaseCoin
 		if slashBase != nil && subVol != nil {
 			var baseTrue, customFalse bool
@@ -418,8 +447,8 @@ func checkSlash(c *core.Ctx) {
 }
 
 // checkCarry: SetNewValidators carries accumReward by a key that survives a public-key change.
-func checkCarry(c *core.Ctx) {
-	fn := c.MustFn("C01.carry", "(*coreV2/state/validators.Validators).SetNewValidators")
+func checkCarry(c *core.Ctx, rule string) {
+	fn := c.MustFn(rule, "(*coreV2/state/validators.Validators).SetNewValidators")
 	if fn == nil {
 		return
 	}
@@ -441,7 +470,7 @@ func checkCarry(c *core.Ctx) {
 		}
 	}
 	if cmp == nil {
-		c.Unk("C01.carry", "SetNewValidators/match", fn.Pos(), "the old↔new validator match was not recognised")
+		c.Unk(rule, "SetNewValidators/match", fn.Pos(), "the old↔new validator match was not recognised")
 		return
 	}
 	px, py := core.Path(cmp.X), core.Path(cmp.Y)
@@ -454,7 +483,7 @@ func checkCarry(c *core.Ctx) {
 			sink = true
 		}
 	}
-	c.Check(!byAddr || sink, "C01.carry", "SetNewValidators/accumReward", cmp.Pos(),
+	c.Check(!byAddr || sink, rule, "SetNewValidators/accumReward", cmp.Pos(),
 		"accumulated rewards are carried by a key that survives a public-key change, or unmatched rewards are returned",
 		"old validators are matched to new candidates by Tendermint address / public key ("+px+" == "+py+"); after EditCandidatePublicKey the address changes, the match fails, the new Validator starts with accumReward 0 and the old object's accumulated reward is neither carried nor returned to the pool or total-slashed — base coin silently destroyed, unnoticed by the delta-based Checker")
 }
